@@ -221,3 +221,250 @@ def unpost(v):
 
 def ident(x):
     return x
+
+
+# ====================================================================== C05
+# ------------------------------------------------------------------ analysis chains
+class CountFills(object):
+    """User fill/compute element: yields the number of its fills."""
+
+    def __init__(self):
+        self.n = 0
+
+    def fill(self, v):
+        self.n += 1
+
+    def compute(self):
+        yield self.n
+
+
+class RecAcc(object):
+    """Recording proxy around an accumulator: a fill/compute element that logs what reaches it."""
+
+    def __init__(self, acc):
+        self._acc = acc
+        self.reached = []
+
+    def fill(self, v):
+        import copy
+        self.reached.append(copy.deepcopy(v))
+        self._acc.fill(v)
+
+    def compute(self):
+        return self._acc.compute()
+
+
+def build_acc(a):
+    import lena.flow
+    import lena.math
+    from . import flowlib
+    if a == "sum":
+        return lena.math.Sum()
+    if a == "last":
+        return flowlib.Last()
+    if a == "store1":
+        return lena.flow.StoreFilled(yield_as_a_group=False)
+    if a == "cnt":
+        return CountFills()
+    raise ValueError(a)
+
+
+def build_chain(ch, pairs, acc=None):
+    """Fresh real elements (pre, acc, post) for a chain descriptor."""
+    from . import flowlib
+    pre = [flowlib.build_stage(st, pairs) for st in ch["pre"]]
+    post = [flowlib.build_stage(st, pairs) for st in ch["post"]]
+    return pre, (acc if acc is not None else build_acc(ch["acc"])), post
+
+
+def drive_chain(ch, n_values, pairs, drv, bs=None, acc=None, copy_buf=True, form="tuple"):
+    """Run one driver on fresh elements; returns the list of real results (exceptions propagate)."""
+    import lena.core
+    from . import flowlib
+    pre, a, post = build_chain(ch, pairs, acc)
+    els = pre + [a] + post
+    flow = iter([flowlib.make_value(i, pairs) for i in range(n_values)])
+    if drv == "run":
+        return list(lena.core.Sequence(*els).run(flow))
+    if drv == "split":
+        if form == "tuple":
+            branch = tuple(els)
+        elif form == "fcseq":
+            branch = lena.core.FillComputeSeq(*els)
+        else:
+            raise ValueError(form)
+        s = lena.core.Split([branch], bufsize=None if bs == NONE else bs, copy_buf=copy_buf)
+        return list(s.run(flow))
+    if drv == "fill_compute_seq":
+        s = lena.core.FillComputeSeq(*els)
+        for v in flow:
+            try:
+                s.fill(v)
+            except lena.core.LenaStopFill:
+                break
+        return list(s.compute())
+    if drv == "fill_seq":
+        s = lena.core.FillSeq(*(pre + [a]))
+        for v in flow:
+            try:
+                s.fill(v)
+            except lena.core.LenaStopFill:
+                break
+        return list(lena.core.Sequence(*post).run(a.compute()))
+    raise ValueError(drv)
+
+
+def chain_key(ch):
+    def one(st):
+        t = st["t"]
+        if t == "map":
+            return st["f"]
+        if t == "filter":
+            return "filter-" + st["p"]
+        if t == "slice":
+            return "slice(%s,%s,%s)" % (st["a"], "None" if st["b"] == NONE else st["b"], st["s"])
+        if t == "runif":
+            return "runif(%s,%s)" % (st["p"], st["f"])
+        return t
+    return "%s|%s|%s" % ("+".join(one(s) for s in ch["pre"]), ch["acc"], "+".join(one(s) for s in ch["post"]))
+
+
+# ------------------------------------------------------------------ adapters over capability sets
+METHODS = ("run", "fill", "compute", "request", "fill_into", "m")
+
+
+def _flowlike(x):
+    return hasattr(x, "__iter__") and not isinstance(x, (tuple, str))
+
+
+def _generic(name):
+    """Method usable in every role (call(value), run(flow), fill(value), compute(), fill_into(element, value)):
+    logs its call as a token and returns a one-token list naming itself."""
+    def method(self, *args):
+        if len(args) == 2:
+            self.log.append((name, (-1, args[1])))
+            args[0].fill((name, (args[1],)))
+            return None
+        if len(args) == 1 and _flowlike(args[0]):
+            vals = tuple(args[0])
+            self.log.append((name, vals))
+            return [(name, vals)]
+        self.log.append((name, tuple(args)))
+        return [(name, tuple(args))]
+    method.__name__ = name
+    return method
+
+
+def _m_call(self, *args):
+    self.log.append(("call", tuple(args)))
+    return [("call", tuple(args))]
+
+
+def _m_iter(self):
+    self.log.append(("iter", ()))
+    return iter([("iter", ())])
+
+
+_IMPL = dict((name, _generic(name)) for name in METHODS)
+
+
+def make_synthetic(caps):
+    """An instance of a fresh class with exactly the capabilities of the record."""
+    ns = {}
+    for name in METHODS:
+        if caps[name] == "meth":
+            ns[name] = _IMPL[name]
+        elif caps[name] == "attr":
+            ns[name] = 5
+    if caps["call"]:
+        ns["__call__"] = _m_call
+    if caps["iter"]:
+        ns["__iter__"] = _m_iter
+    if caps["cbf"]:
+        ns["_can_break_flow"] = True
+    cls = type("Synthetic", (object,), ns)
+    obj = cls()
+    obj.log = []
+    return obj
+
+
+class Sink(object):
+    def __init__(self):
+        self.filled = []
+
+    def fill(self, v):
+        self.filled.append(v)
+
+
+def tokens(x):
+    """Flatten results of synthetic methods into a list of (name, args) tokens."""
+    if isinstance(x, tuple) and len(x) == 2 and isinstance(x[0], str) and isinstance(x[1], tuple):
+        return [x]
+    if isinstance(x, (list, tuple)):
+        out = []
+        for y in x:
+            out += tokens(y)
+        return out
+    if x is None:
+        return []
+    return [("?", (repr(x),))]
+
+
+def spec_tokens(ts):
+    return [(t["n"], tuple(t["a"])) for t in ts]
+
+
+def caps_sig(caps):
+    parts = [("%s=%s" % (k, caps[k]) if caps[k] == "attr" else k) for k in METHODS if caps[k] != "no"]
+    parts += [k for k in ("call", "iter", "cbf") if caps[k]]
+    return "+".join(parts) or "nothing"
+
+
+def adapter_kwargs(adapter, arg, function=None):
+    """Constructor (positional element, keyword arguments) for a spec argument."""
+    if arg == "default":
+        return {}
+    kind, _, name = arg.partition(":")
+    if arg == "none":
+        return {"run": function}
+    if adapter in ("Call", "SourceEl"):
+        return {"call": name}
+    if adapter == "Run":
+        return {"run": name}
+    if adapter == "FillInto":
+        return {"fill_into": name}
+    if adapter == "FillCompute":
+        return {kind: name}
+    raise ValueError((adapter, arg))
+
+
+def probe_adapter(adapter, obj):
+    """Invoke the adapter's interface on the fixed probe of Adapters.tla; returns (ret tokens, sink tokens)."""
+    if adapter == "Call":
+        return tokens(obj(7)), []
+    if adapter == "SourceEl":
+        return tokens(list(obj())), []
+    if adapter == "Run":
+        return tokens(list(obj.run(iter([7, 8])))), []
+    if adapter == "FillCompute":
+        obj.fill(7)
+        return tokens(list(obj.compute())), []
+    if adapter == "FillInto":
+        sink = Sink()
+        obj.fill_into(sink, 7)
+        return [], tokens(sink.filled)
+    raise ValueError(adapter)
+
+
+def real_caps(obj):
+    """Capability record of an arbitrary object, by introspection."""
+    caps = {}
+    for name in METHODS:
+        if not hasattr(obj, name):
+            caps[name] = "no"
+        else:
+            caps[name] = "meth" if callable(getattr(obj, name)) else "attr"
+    caps["call"] = callable(obj)
+    caps["iter"] = hasattr(obj, "__iter__")
+    caps["cbf"] = hasattr(obj, "_can_break_flow")
+    return caps
